@@ -376,128 +376,142 @@ example :
     (start .fmp4 3 tracks).map (fun ss => (generateWith .fmp4 ss tracks "" (7, 5)).variants.map
       (fun mv => (mv.resolution, mv.frameRate, mv.uri))) = .ok [("1920x1080", some "30.000", "video2_stream.m3u8")] := by decide
 
-/-- `BANDWIDTH ≥ AVERAGE-BANDWIDTH` (mediant inequality on the floor divisions). -/
-theorem c16_bw_order (segs : List Seg) (mx avg : Nat) (h : bandwidth segs = .ok (mx, avg)) : avg ≤ mx := by
-  unfold bandwidth at h
-  cases segs with
-  | nil => simp at h; omega
-  | cons s rest =>
-    simp only at h
-    cases hl : bwLoop (s :: rest) 0 0 0 with
-    | error e => simp [hl] at h
-    | ok r =>
-      obtain ⟨mx', sz, du⟩ := r
-      simp only [hl] at h
-      by_cases hdu : du = 0
-      · simp [hdu] at h
-      · simp only [hdu, ↓reduceIte, Except.ok.injEq, Prod.mk.injEq] at h
-        obtain ⟨rfl, rfl⟩ := h
-        have := bwLoop_mediant hl (Or.inr ⟨rfl, rfl⟩)
-        rcases this with hlt | ⟨h0, _⟩
-        · have : 8 * sz * nsPerSec / du < mx' + 1 := (Nat.div_lt_iff_lt_mul (Nat.pos_of_ne_zero hdu)).mpr hlt
-          omega
-        · exact absurd h0 hdu
+/-! ## `bandwidth()` — the code after the repair of finding F13
 
-/-- `bandwidth()` returns exactly the peak and the mean bit rate of the listed non-gap segments. -/
-theorem c16_bw_exact (segs : List Seg) (mx avg : Nat) (hne : segs ≠ []) (h : bandwidth segs = .ok (mx, avg)) :
-    mx = peakRate segs ∧ avg = meanRate segs ∧ 0 < totalDur segs := by
-  unfold bandwidth at h
-  cases segs with
-  | nil => exact absurd rfl hne
-  | cons s rest =>
-    simp only at h
-    cases hl : bwLoop (s :: rest) 0 0 0 with
-    | error e => simp [hl] at h
-    | ok r =>
-      obtain ⟨mx', sz, du⟩ := r
-      simp only [hl] at h
-      obtain ⟨h1, h2, h3, _⟩ := bwLoop_ok hl
-      by_cases hdu : du = 0
-      · simp [hdu] at h
-      · simp only [hdu, ↓reduceIte, Except.ok.injEq, Prod.mk.injEq] at h
-        obtain ⟨rfl, rfl⟩ := h
-        simp only [Nat.zero_add] at h2 h3
-        refine ⟨h1, ?_, by omega⟩
-        unfold meanRate
-        rw [h2, h3]
+`Hls.MvGen.bandwidth` / `generate` model the FIXED code (total functions); `bandwidthCode` / `generateCode`
+are the same code with the two guards of the repair taken from the regenerated facts
+`MvGen.bandwidthSkipsZeroDuration` / `MvGen.bandwidthGuardsZeroTotal` (this is what the driver runs
+against the real code); `bandwidthLegacy` is the definition before the repair. -/
 
-/-- `AVERAGE-BANDWIDTH > 0` iff the listed segments carry at least one bit per second on average;
-in particular whenever every listed segment carries at least one byte per 8 s of its duration. -/
-theorem c16_bw_pos (segs : List Seg) (mx avg : Nat) (hne : segs ≠ []) (h : bandwidth segs = .ok (mx, avg)) :
-    (0 < avg ↔ totalDur segs ≤ 8 * totalSize segs * nsPerSec) ∧
-    ((∀ size dur, Seg.seg size dur ∈ segs → dur ≤ 8 * size * nsPerSec) → 0 < avg ∧ 0 < mx) := by
-  obtain ⟨_, h2, h3⟩ := c16_bw_exact segs mx avg hne h
-  have hiff : 0 < avg ↔ totalDur segs ≤ 8 * totalSize segs * nsPerSec := by
-    rw [h2]; unfold meanRate
+/-- T1 tie of the repair: the extractor finds both guards in the source of `bandwidth()` — the conjunct
+`seg.getDuration() > 0` in the loop and `if durations == 0 { return int(maxBandwidth), 0 }` before the
+final division. Reverting the fix in the source makes this (and `c16_no_panic`) fail. -/
+theorem c16_fix_present :
+    MvGen.bandwidthSkipsZeroDuration = true ∧ MvGen.bandwidthGuardsZeroTotal = true := by decide
+
+/-- `index.m3u8` never panics: on EVERY input (any variant, stream list, tracks, query, and any
+`(size, duration)` list of `m.streams[0].segments`, reachable or not) the multivariant handler over
+`bandwidth()` as found in the source returns, and returns what the model of the fixed code returns. -/
+theorem c16_no_panic (v : Variant) (streams : List Stream) (tracks : List Track) (q : String) (segs : List Seg) :
+    bandwidthCode segs = .ok (bandwidth segs) ∧
+    generateCode v streams tracks q segs = .ok (generate v streams tracks q segs) := by
+  have hb : bandwidthCode segs = .ok (bandwidth segs) := by
+    unfold bandwidthCode
+    rw [c16_fix_present.1, c16_fix_present.2]
+    exact bandwidthWith_fixed segs
+  refine ⟨hb, ?_⟩
+  unfold generateCode generate
+  rw [hb]
+
+/-- `BANDWIDTH ≥ AVERAGE-BANDWIDTH` (mediant inequality on the floor divisions); zero-duration
+segments are left out of both numbers, an all-zero window gives `AVERAGE-BANDWIDTH = 0 ≤ BANDWIDTH`. -/
+theorem c16_bw_order (segs : List Seg) (mx avg : Nat) (h : bandwidth segs = (mx, avg)) : avg ≤ mx := by
+  rw [bandwidth_eq] at h
+  simp only [Prod.mk.injEq] at h
+  obtain ⟨rfl, rfl⟩ := h
+  by_cases hdu : (bwLoop segs 0 0 0).2.2 = 0
+  · simp [hdu]
+  · simp only [hdu, ↓reduceIte]
+    rcases bwLoop_mediant segs 0 0 0 (Or.inr ⟨rfl, rfl⟩) with hlt | ⟨h0, _⟩
+    · have := (Nat.div_lt_iff_lt_mul (Nat.pos_of_ne_zero hdu)).mpr hlt
+      omega
+    · exact absurd h0 hdu
+
+/-- `bandwidth()` returns exactly the peak and the mean bit rate of the listed non-gap segments WITH A
+NON-ZERO DURATION (`timed segs`); when no such segment is listed both are 0 (`meanRate` divides by the
+total duration; the second clause spells out the `0 / 0` case instead of relying on Lean's convention);
+without a listed zero duration nothing is left out. -/
+theorem c16_bw_exact (segs : List Seg) :
+    bandwidth segs = (peakRate (timed segs), meanRate (timed segs)) ∧
+    (totalDur (timed segs) = 0 → bandwidth segs = (0, 0)) ∧
+    ((∀ size, Seg.seg size 0 ∉ segs) → timed segs = segs) := by
+  have hspec := bwLoop_spec segs 0 0 0
+  have heq : bandwidth segs = (peakRate (timed segs), meanRate (timed segs)) := by
+    rw [bandwidth_eq, hspec]
+    simp only [Nat.zero_add, peakRate, meanRate]
+    by_cases hdu : totalDur (timed segs) = 0
+    · simp [hdu]
+    · simp [hdu]
+  refine ⟨heq, ?_, timed_eq_self⟩
+  intro h0
+  rw [heq]
+  simp [peakRate, meanRate, rates_timed_of_totalDur_zero segs h0, h0]
+
+/-- `AVERAGE-BANDWIDTH > 0` iff at least one listed non-gap segment has a positive duration AND the
+segments with a positive duration carry at least one bit per second on average
+(`Σdur ≤ 8·10⁹·Σsize`). In particular: some listed segment has a positive duration and every listed
+segment with a positive duration carries at least one byte per 8 s ⇒ both numbers are positive. -/
+theorem c16_bw_pos (segs : List Seg) (mx avg : Nat) (h : bandwidth segs = (mx, avg)) :
+    (0 < avg ↔ (∃ size dur, Seg.seg size dur ∈ segs ∧ 0 < dur) ∧
+                totalDur (timed segs) ≤ 8 * totalSize (timed segs) * nsPerSec) ∧
+    ((∃ size dur, Seg.seg size dur ∈ segs ∧ 0 < dur) →
+      (∀ size dur, Seg.seg size dur ∈ segs → 0 < dur → dur ≤ 8 * size * nsPerSec) → 0 < avg ∧ 0 < mx) := by
+  have h2 : avg = meanRate (timed segs) := by
+    have := (c16_bw_exact segs).1
+    rw [h] at this
+    exact (Prod.mk.inj this).2
+  have hiff : 0 < avg ↔ (∃ size dur, Seg.seg size dur ∈ segs ∧ 0 < dur) ∧
+      totalDur (timed segs) ≤ 8 * totalSize (timed segs) * nsPerSec := by
+    rw [h2, ← totalDur_timed_pos_iff]; unfold meanRate
     rw [Nat.div_pos_iff]
-    constructor
-    · intro hh; exact hh.2
-    · intro hh; exact ⟨h3, hh⟩
   refine ⟨hiff, ?_⟩
-  intro hg
-  have hsum : totalDur segs ≤ 8 * totalSize segs * nsPerSec := totalDur_le_of_guard segs hg
-  have hpos := hiff.mpr hsum
+  intro hex hg
+  have hsum : totalDur (timed segs) ≤ 8 * totalSize (timed segs) * nsPerSec :=
+    totalDur_le_of_guard (timed segs) (fun size dur hm =>
+      hg size dur (mem_timed.mp hm).1 (Nat.pos_of_ne_zero (mem_timed.mp hm).2))
+  have hpos := hiff.mpr ⟨hex, hsum⟩
   exact ⟨hpos, by have := c16_bw_order segs mx avg h; omega⟩
 
-example : bandwidth [.gap 1000000000, .seg 125000 1000000000, .seg 250000 2000000000] = .ok (1000000, 1000000) := by decide
-example : bandwidth [.seg 300000 1000000000, .seg 100000 1000000000] = .ok (2400000, 1600000) := by decide
+example : bandwidth [.gap 1000000000, .seg 125000 1000000000, .seg 250000 2000000000] = (1000000, 1000000) := by decide
+example : bandwidth [.seg 300000 1000000000, .seg 100000 1000000000] = (2400000, 1600000) := by decide
+/-- the skipped-segment case: a zero-duration segment between two timed ones changes neither number -/
+example : bandwidth [.seg 300000 1000000000, .seg 700 0, .seg 100000 1000000000] = (2400000, 1600000) := by decide
+/-- non-vacuity of `c16_bw_pos` (second clause) -/
+example : (∃ size dur, Seg.seg size dur ∈ [Seg.seg 900 1000000000, .seg 700 0] ∧ 0 < dur) ∧
+    (∀ size dur, Seg.seg size dur ∈ [Seg.seg 900 1000000000, .seg 700 0] → 0 < dur → dur ≤ 8 * size * nsPerSec) := by
+  refine ⟨⟨900, 1000000000, by simp, by omega⟩, ?_⟩
+  intro size dur hm hpos
+  simp only [List.mem_cons, Seg.seg.injEq, List.not_mem_nil, or_false] at hm
+  rcases hm with ⟨rfl, rfl⟩ | ⟨rfl, rfl⟩
+  · simp [nsPerSec]
+  · omega
 
-/-- `bandwidth()` (hence `index.m3u8`) does not panic iff the list is empty or every listed non-gap
-segment has a positive duration and there is at least one of them. -/
-theorem c16_no_panic (segs : List Seg) :
-    ((∃ r, bandwidth segs = .ok r) ↔
-      (segs = [] ∨ ((∀ size dur, Seg.seg size dur ∈ segs → 0 < dur) ∧ ∃ size dur, Seg.seg size dur ∈ segs))) := by
-  constructor
-  · rintro ⟨r, h⟩
-    by_cases hne : segs = []
-    · exact Or.inl hne
-    · right
-      obtain ⟨mx, avg⟩ := r
-      unfold bandwidth at h
-      cases segs with
-      | nil => exact absurd rfl hne
-      | cons s rest =>
-        simp only at h
-        cases hl : bwLoop (s :: rest) 0 0 0 with
-        | error e => simp [hl] at h
-        | ok r' =>
-          obtain ⟨mx', sz, du⟩ := r'
-          simp only [hl] at h
-          obtain ⟨_, _, h3, h4⟩ := bwLoop_ok hl
-          refine ⟨h4, ?_⟩
-          by_cases hdu : du = 0
-          · simp [hdu] at h
-          · -- a positive total duration needs a listed segment
-            simp only [Nat.zero_add] at h3
-            have hpos : 0 < totalDur (s :: rest) := by omega
-            exact exists_seg_of_totalDur_pos _ hpos
-  · rintro (rfl | ⟨hpos, size, dur, hm⟩)
-    · exact ⟨(0, 0), rfl⟩
-    · cases hl : bwLoop segs 0 0 0 with
-      | error e =>
-        exfalso
-        obtain ⟨s0, hs0⟩ := (bwLoop_error_iff segs 0 0 0).mp ⟨e, hl⟩
-        have := hpos s0 0 hs0
-        omega
-      | ok r' =>
-        obtain ⟨mx', sz, du⟩ := r'
-        obtain ⟨_, _, h3, _⟩ := bwLoop_ok hl
-        have hd : 0 < totalDur segs := totalDur_pos_of_mem segs hpos hm
-        have hdu : du ≠ 0 := by omega
-        cases segs with
-        | nil => simp at hm
-        | cons s rest =>
-          refine ⟨(mx', 8 * sz * nsPerSec / du), ?_⟩
-          unfold bandwidth
-          simp only [hl, hdu, ↓reduceIte]
+/-- What REMAINS of F13 after the repair (known finding F13b): the zero-duration segment itself. When
+it is the only listed segment the hypothesis of `c16_bw_pos` fails and the playlist says
+`BANDWIDTH=0,AVERAGE-BANDWIDTH=0`; a too small rate (`Σdur > 8·10⁹·Σsize`) is the only other way. -/
+example : bandwidth [.seg 700 0] = (0, 0) ∧ bandwidth [.gap 5, .seg 700 0, .seg 900 0] = (0, 0) ∧
+    bandwidth [.seg 0 1000000000] = (0, 0) := by decide
+
+/-! ## The finding F13, machine-checked on the legacy definition -/
+
+/-- F13: before the repair `bandwidth()` divided by zero — for every size, on the duration list
+`[1 s, 0, 1 s]` that a parameter change at the predecessor's DTS produces (see the `leadWrite` run
+below); in general it panicked iff a zero-duration segment (or no segment at all) was listed. The
+repair is conservative: whenever the legacy code returned, the fixed code returns the same pair. -/
+theorem c16_legacy_panic :
+    (∀ s : Nat, bandwidthLegacy [.seg s 1000000000, .seg s 0, .seg s 1000000000] = .error .divideByZero) ∧
+    (∀ segs, (∃ e, bandwidthLegacy segs = .error e) ↔
+      (segs ≠ [] ∧ ((∃ size, Seg.seg size 0 ∈ segs) ∨ ∀ size dur, Seg.seg size dur ∉ segs))) ∧
+    (∀ segs r, bandwidthLegacy segs = .ok r → bandwidth segs = r) := by
+  refine ⟨?_, bandwidthLegacy_error_iff, fun segs r h => bandwidthWith_ok h⟩
+  intro s
+  simp [bandwidthLegacy, bandwidthWith, bwLoopWith]
+
+/-- each guard alone is not enough: without the loop conjunct the F13 list still panics, without the
+final guard an all-zero window does -/
+example : bandwidthWith false true [.seg 900 1000000000, .seg 700 0, .seg 900 1000000000] = .error .divideByZero ∧
+    bandwidthWith true false [.seg 700 0] = .error .divideByZero ∧
+    bandwidthWith true false [.seg 900 1000000000, .seg 700 0, .seg 900 1000000000] = .ok (7200, 7200) := by decide
 
 /-- F13 on the model: fMP4, one H264 track, a random-access unit with changed parameters at the
-DTS of its predecessor forces a zero-duration segment; `index.m3u8` then divides by zero. -/
+DTS of its predecessor forces a zero-duration segment; the legacy `index.m3u8` then divides by zero,
+the fixed one answers from the two timed segments. -/
 example :
     let s0 : SegSt := { variant := .fmp4, segCount := 3, segMin := 1000000000, rate := 90000, leadVideo := true }
     let s := leadWrite (leadWrite (leadWrite (leadWrite (leadWrite s0 0 true false) 90000 true false) 180000 true false)
       180000 true true) 270000 true false
     s.entries = [.seg 1000000000, .seg 0, .seg 1000000000] ∧
-    bandwidth [.seg 900 1000000000, .seg 700 0, .seg 900 1000000000] = .error .divideByZero := by decide
+    bandwidthLegacy [.seg 900 1000000000, .seg 700 0, .seg 900 1000000000] = .error .divideByZero ∧
+    bandwidth [.seg 900 1000000000, .seg 700 0, .seg 900 1000000000] = (7200, 7200) := by decide
 
 end Hls.Props.C16
